@@ -220,4 +220,53 @@ Proof.
     destruct (run_loop m a' l' c') as [vs fin]. destruct L as (L1 & L2 & L3 & _).
     rewrite L1, L2. cbn. auto.
 Qed.
+
+(* ------------------------------------------------------------ the control values are private copies *)
+(* The user state U is where Lua variables live (locals, upvalues, globals, table fields): the control
+   expressions READ it (pcs 0-2), the loop keeps its own copies in r1..r3, and from then on only the body
+   writes to U: prepfor / advfor / the jumps / the copy into the loop variable never do (prepfor's
+   normalisation of the limit and step goes to r2, r3, not back to the variables they were read from).
+   Hence: the user state at any point of the loop is the state after the three evaluations with the
+   bodies applied, in order, to the values handed to them. *)
+Definition apply_bodies (body : num -> U -> num * U) (vs : list num) (u : U) : U :=
+  fold_left (fun u v => snd (body v u)) vs u.
+
+Definition private_inv (body : num -> U -> num * U) (u : U) (s : st) : Prop :=
+  let '(_, u1) := e1 u in let '(_, u2) := e2 u1 in let '(_, u3) := e3 u2 in
+  (pc s = 0 /\ us s = u /\ seen s = []) \/ (pc s = 1 /\ us s = u1 /\ seen s = []) \/
+  (pc s = 2 /\ us s = u2 /\ seen s = []) \/ (3 <= pc s /\ us s = apply_bodies body (seen s) u3).
+
+Lemma step_private body u s : private_inv body u s -> private_inv body u (step body s).
+Proof.
+  unfold private_inv.
+  destruct (e1 u) as [a u1] eqn:E1. destruct (e2 u1) as [b u2] eqn:E2. destruct (e3 u2) as [c u3] eqn:E3.
+  intros [H|[H|[H|H]]].
+  - destruct H as (P & Us & Sn). unfold step. rewrite P, Us, E1. cbn. right; left. auto.
+  - destruct H as (P & Us & Sn). unfold step. rewrite P, Us, E2. cbn. right; right; left. auto.
+  - destruct H as (P & Us & Sn). unfold step. rewrite P, Us, E3. cbn. right; right; right. rewrite Sn. cbn. auto with arith.
+  - destruct H as (P & Us). right; right; right. unfold step.
+    destruct (pc s) as [|[|[|[|[|[|[|[|[|n]]]]]]]]] eqn:E; try lia.
+    + destruct (r1 s); [destruct (prepfor n (r2 s) (r3 s))|]; cbn; split; auto with arith.
+    + cbn. split; auto. destruct (r1 s); auto with arith.
+    + cbn. split; auto with arith.
+    + destruct (body (r4 s) (us s)) as [v u'] eqn:B. cbn. split; auto with arith.
+      unfold apply_bodies. rewrite fold_left_app. cbn. fold (apply_bodies body (seen s) u3). rewrite <- Us, B. reflexivity.
+    + cbn. split; auto with arith.
+    + cbn. split; auto. destruct (r1 s); auto with arith.
+    + rewrite E. split; auto.
+Qed.
+
+Theorem control_registers_private body u k :
+  let '(_, u1) := e1 u in let '(_, u2) := e2 u1 in let '(_, u3) := e3 u2 in
+  let s := run body k (init u) in
+  3 <= pc s -> us s = apply_bodies body (seen s) u3.
+Proof.
+  assert (I : forall k s, private_inv body u s -> private_inv body u (run body k s)).
+  { induction k0; intros s H; cbn; auto. apply IHk0. now apply step_private. }
+  specialize (I k (init u)). unfold private_inv in *.
+  destruct (e1 u) as [a u1]. destruct (e2 u1) as [b u2]. destruct (e3 u2) as [c u3].
+  cbv zeta. intros P.
+  destruct I as [H|[H|[H|H]]]; try (left; cbn; auto); try lia.
+  apply H.
+Qed.
 End Machine.
